@@ -691,6 +691,32 @@ def getitem(a, key):
         # mixed fancy indexing: one integer-list axis, others slices/ints
         fa = [i for i, k in enumerate(key) if isinstance(k, (list, ArrBase))]
         if len(fa) != 1:
+            # every axis indexed by an integer array of concrete shape: numpy broadcasts the index arrays and picks element-wise
+            ks = [to_arr(k) if isinstance(k, (list, ArrBase)) else k for k in key]
+            if len(key) == a.ndim and all((isinstance(k, ArrBase) and k.dtype != 'bool' and all(dim_conc(d) for d in k.shape)) or isinstance(_generic(k), int) for k in ks):
+                shapes = [k.shape for k in ks if isinstance(k, ArrBase)]
+                nd = max(len(sh) for sh in shapes)
+                out = []
+                for pos in range(nd):
+                    ds = [sh[pos - (nd - len(sh))] for sh in shapes if pos - (nd - len(sh)) >= 0]
+                    m = max(ds) if ds else 1
+                    if any(d not in (1, m) for d in ds):
+                        raise PyRaise('IndexError', 'shape mismatch: indexing arrays could not be broadcast together')
+                    out.append(m)
+                f = a.snap()
+                snaps = [k.snap() if isinstance(k, ArrBase) else None for k in ks]
+
+                def pick(*idx):
+                    src = []
+                    for k, sn in zip(ks, snaps):
+                        if sn is None:
+                            src.append(_generic(k))
+                            continue
+                        off = nd - k.ndim
+                        sub = [0 if k.shape[j] == 1 else idx[off + j] for j in range(k.ndim)]
+                        src.append(sn(*sub))
+                    return f(*src)
+                return Arr(tuple(out), pick, a.dtype)
             raise Unsupported('fancy indexing on several axes')
         ax = fa[0]
         idxarr = to_arr(key[ax])
@@ -1600,10 +1626,28 @@ class _NP(object):
             return f(*full)
         return Arr(shape, fn, a.dtype)
 
-    def diff(self, a):
+    def diff(self, a, n=1, axis=-1):
         a = to_arr(a)
+        if n != 1:
+            raise Unsupported('np.diff with n != 1')
+        ax = axis % a.ndim
         f = a.snap()
-        return Arr((_simp(sym.sub(a.shape[0], 1)),) + a.shape[1:], lambda i, *r: sym.sub(f(sym.add(i, 1), *r), f(i, *r)), a.dtype)
+        shp = tuple(_simp(sym.sub(d, 1)) if k == ax else d for k, d in enumerate(a.shape))
+
+        def g(*idx):
+            hi = list(idx)
+            hi[ax] = sym.add(idx[ax], 1) if not isinstance(idx[ax], int) else idx[ax] + 1
+            return sym.sub(f(*hi), f(*idx))
+        return Arr(shp, g, a.dtype)
+
+    def tile(self, a, reps):
+        a = to_arr(a)
+        reps = tuple(reps) if isinstance(reps, (tuple, list)) else (reps,)
+        reps = tuple(_generic(r) for r in reps)
+        if a.ndim == 2 and len(reps) == 2 and reps[1] == 1 and dim_conc(a.shape[0]) and a.shape[0] == 1:
+            f = a.snap()
+            return Arr((reps[0], a.shape[1]), lambda i, j: f(0, j), a.dtype)      # one row repeated
+        raise Unsupported('np.tile general form')
 
     def repeat(self, a, n, axis=None):
         a = to_arr(a)
